@@ -42,6 +42,7 @@ BIN = {
     ast.Add: operator.add, ast.Sub: operator.sub, ast.Mult: operator.mul, ast.Mod: operator.mod,
     ast.BitAnd: operator.and_, ast.BitOr: operator.or_, ast.BitXor: operator.xor, ast.Pow: operator.pow,
     ast.FloorDiv: operator.floordiv, ast.Div: operator.truediv, ast.LShift: operator.lshift, ast.RShift: operator.rshift,
+    ast.MatMult: operator.matmul,
 }
 CMP = {
     ast.Eq: operator.eq, ast.NotEq: operator.ne, ast.Lt: operator.lt, ast.LtE: operator.le, ast.Gt: operator.gt,
